@@ -361,6 +361,10 @@ func appendSlice(expr ast.Expr, lhsV reflect.Value, rhsV reflect.Value) (reflect
 			value := rhsV.Index(i)
 			if rhsT == interfaceType {
 				value = value.Elem()
+				if !value.IsValid() {
+					// nil element: the zero value of the left side's element type
+					value = reflect.Zero(lhsT)
+				}
 			}
 			if lhsT == value.Type() {
 				lhsV = reflect.Append(lhsV, value)
